@@ -181,7 +181,53 @@ class FunctionAnalysis:
     def run(self):
         self.block(self.node.body)
         self.kind_obligation()
+        self.hash_obligation()
         return self.obligations
+
+    def _fields_read(self, f, seen=None):
+        """names X of ``self.X`` loads in method f, following calls ``self.m(...)`` to methods of the class."""
+        seen = seen if seen is not None else set()
+        if f is None or f.qualname in seen:
+            return set()
+        seen.add(f.qualname)
+        out = set()
+        cls = f.cls
+        for n in ast.walk(f.node):
+            if isinstance(n, ast.Attribute) and isinstance(n.value, ast.Name) and n.value.id == "self" \
+                    and isinstance(n.ctx, ast.Load):
+                m = cls.find_method(self.repo, n.attr) if (cls is not None and self.repo is not None) else None
+                if m is not None and not m.is_property:
+                    out |= self._fields_read(m, seen)
+                elif m is not None and m.is_property:
+                    out |= self._fields_read(m, seen) or {n.attr}
+                else:
+                    out.add(n.attr)
+        return out
+
+    def hash_obligation(self):
+        """Memo-key obligation (justifies A5 for the class-level lru_cache on Parent and the per-object caches keyed
+        by argument values): ``__hash__`` must take into account every field ``__eq__`` compares.  Parent.__eq__ is
+        deliberately lenient (a missing ancestor compares equal), so a hash that ignores a compared field makes the
+        memoised constructor hand back an object built for DIFFERENT arguments - answers then depend on which
+        look-alike was built first."""
+        if self.f.name != "__hash__" or self.f.cls is None or self.repo is None:
+            return
+        eq = self.f.cls.find_method(self.repo, "__eq__")
+        if eq is None:
+            return
+        # only for classes memoised as a whole (``@lru_cache`` on the class: Parent): their instances are the keys
+        decos = [ast.unparse(d) for d in getattr(self.f.cls.node, "decorator_list", [])]
+        if not any("lru_cache" in d for d in decos):
+            return
+        hashed = self._fields_read(self.f)
+        compared = self._fields_read(eq)
+        # guid-style digests stand for the fields they were computed from
+        if hashed & {"guid", "_guid"}:
+            return
+        missing = sorted(compared - hashed)
+        self.obligations.append(Ob("identity:hash-covers-every-field-eq-compares", not missing,
+                                   f"__eq__ compares {missing} but __hash__ ignores them (memo keys conflate objects)"
+                                   if missing else ""))
 
     def block(self, stmts):
         for s in stmts:
@@ -256,7 +302,14 @@ class FunctionAnalysis:
         v = self.val(recv)
         ok = False
         reason = ""
-        if v in (FRESH, IMMUT):
+        if (how == "store" and isinstance(target, ast.Attribute) and target.attr in MEMO_SLOTS and root != "self"):
+            # a memo slot of ANOTHER object (typically one just built from self) seeded with a value computed for
+            # self: the new object's accessor then answers from a cache filled under other assumptions (strand,
+            # parent, coordinates), i.e. its answers depend on what had been asked of the source object before
+            ok = False
+            reason = (f"memo slot {target.attr} of another object written outside its owning accessor "
+                      f"{sorted(MEMO_OWNERS.get(target.attr, ()))}")
+        elif v in (FRESH, IMMUT):
             ok = True
         elif root == "self" and self.is_ctor:
             ok = True
